@@ -916,6 +916,9 @@ func suiteOps(rn *runner, r *rng, tier string) {
 			text = cr.doc(cfg)
 		}
 		c := &opsCase{r: cr, tc: &testCase{note: "ops"}, st: newStore(), nd: nd}
+		if cr.chance(1, 3) { // destinations (Iter, Object, Array) handed to the API again under the same store name
+			c.emit("mode scratch")
+		}
 		ndS, cpS := "0", "0"
 		if nd {
 			ndS = "1"
@@ -930,7 +933,7 @@ func suiteOps(rn *runner, r *rng, tier string) {
 		roots, err := refDecode(c.pj)
 		if err != nil {
 			c.emit("tape p")
-			c.tc.expect = map[int]string{1: "<well-formed tape: " + err.Error() + ">"}
+			c.tc.expect = map[int]string{len(c.tc.ops) - 1: "<well-formed tape: " + err.Error() + ">"}
 			rn.addPrepared(c.tc)
 			continue
 		}
